@@ -38,6 +38,16 @@ Fixpoint listen (i : Z) (script : list read) : lres :=
       else cons_i ty (listen 0 rest)
   end.
 
+(* virtual time between consecutive ReadFrom calls: one entry per consumed outcome that is followed by
+   another read (a message: 0; the j-th consecutive timeout: its back-off) *)
+Fixpoint read_gaps (i : Z) (script : list read) : list Z :=
+  match script with
+  | [] => []
+  | RdErr :: _ => []
+  | RdTimeout :: rest => if i + 1 <? rxRetries then (i * rxBackoffUnit) :: read_gaps (i + 1) rest else []
+  | RdMsg _ _ _ :: rest => 0 :: read_gaps 0 rest
+  end.
+
 (* what a delivered message makes an advertiser do *)
 Inductive action := ASolicitUni (dst : N) | ASolicitMulti | AVerify | AIgnoreInvalid (typ : N).
 Definition adv_handle (m : N * N) : action :=
